@@ -211,7 +211,68 @@ func c15Alphabet() []string {
 		// names that only BECOME a guarded key under Unicode case mapping (long s U+017F -> S,
 		// dotless i U+0131 -> I, Kelvin sign U+212A -> K): unrelated variables on this platform
 		"GOFLAG\u017f=x", "GOTOOLCHA\u0131N=x", "GOWOR\u212a=x")
+	// names that only BECOME a guarded key under a bitwise byte fold that is not restricted to
+	// letters (c|0x20, c&^0x20, c^0x20): unrelated variables that must pass through
+	for _, fc := range c15FoldCollisions(keys, spell) {
+		al = append(al, fc+"="+hostile[c15FoldOrigin[fc]][0])
+	}
 	return al
+}
+
+// c15FoldOrigin maps a fold-collision name to the guarded key it was derived from.
+var c15FoldOrigin = map[string]string{}
+
+// c15FoldCollisions returns, for every guarded key in every spelling (UPPER, lower, mIxEd), every
+// name obtained by replacing ONE byte at any position by what any of the three bit-0x20 folds
+// makes of it (set, clear, flip), and the name with ALL such positions replaced at once, as long
+// as the result is NOT a spelling of a guarded key under ASCII case folding (a flipped letter is
+// just another spelling and is covered by the spelling modes). What is left are the bytes the
+// folds confuse with the non-letters of the keys: DEL (0x7F) for '_' and DC1 (0x11) for '1'.
+// On this platform such a name is an ordinary, unrelated variable.
+func c15FoldCollisions(keys []string, spell func(string, int) string) []string {
+	var out []string
+	seen := map[string]bool{}
+	add := func(origin, name string) {
+		if seen[name] || strings.IndexByte(name, '=') >= 0 || strings.IndexByte(name, 0) >= 0 {
+			return
+		}
+		if _, g := c15Guarded(name + "="); g {
+			return
+		}
+		u := c15AsciiFold(name)
+		if u == "GONOSUMDB" || u == "GO111MODULE" {
+			return // a spelling of a key the implementation manages too
+		}
+		seen[name] = true
+		c15FoldOrigin[name] = origin
+		out = append(out, name)
+	}
+	folds := []func(byte) byte{
+		func(c byte) byte { return c | 0x20 },
+		func(c byte) byte { return c &^ 0x20 },
+		func(c byte) byte { return c ^ 0x20 },
+	}
+	isLetter := func(c byte) bool { return (c >= 'a' && c <= 'z') || (c >= 'A' && c <= 'Z') }
+	for _, k := range keys {
+		for m := 0; m < 3; m++ {
+			sp := spell(k, m)
+			all := []byte(sp)
+			for i := 0; i < len(sp); i++ {
+				for _, f := range folds {
+					if b := f(sp[i]); b != sp[i] {
+						one := []byte(sp)
+						one[i] = b
+						add(k, string(one))
+						if !isLetter(sp[i]) {
+							all[i] = b
+						}
+					}
+				}
+			}
+			add(k, string(all))
+		}
+	}
+	return out
 }
 
 func TestVerifC15(t *testing.T) {
@@ -228,6 +289,7 @@ func TestVerifC15(t *testing.T) {
 	}()
 	al := c15Alphabet()
 	r.Max("max_alphabet", int64(len(al)))
+	r.Max("max_fold_collision_names", int64(len(c15FoldOrigin)))
 	depth := 3
 	seenEnv := map[string]bool{}
 	removedSpelling := map[string]bool{}
